@@ -168,6 +168,32 @@ def _bind_params(h, call, prefix):
     return out
 
 
+def _split_params(h, call, prefix):
+    """(assign statements for parameters that need a local, {param: expr} to substitute directly).
+    A parameter that the helper never rebinds and that is bound to a pure expression is replaced by that
+    expression (nothing between the call and the helper's statements can change it)."""
+    binds = _bind_params(h, call, prefix)
+    stored = {n.id for n in ast.walk(h) if isinstance(n, ast.Name) and isinstance(n.ctx, (ast.Store, ast.Del))}
+    assigns, subst = [], {}
+    for b in binds:
+        p = b.targets[0].id[len(prefix):]
+        if p not in stored and _pure_arg(b.value):
+            subst[p] = b.value
+        else:
+            assigns.append(b)
+    return assigns, subst
+
+
+class _Subst(ast.NodeTransformer):
+    def __init__(self, subst):
+        self.s = subst
+
+    def visit_Name(self, n):
+        if isinstance(n.ctx, ast.Load) and n.id in self.s:
+            return ast.copy_location(_clone(self.s[n.id]), n)
+        return n
+
+
 def _helper_body(mod, h, call, res, caller):
     if h is caller or _has(h, (ast.Yield, ast.YieldFrom, ast.Nonlocal, ast.Global, ast.AsyncFunctionDef, ast.Await)):
         raise NotInlinable("generator / global state / recursion")
@@ -177,13 +203,14 @@ def _helper_body(mod, h, call, res, caller):
         raise NotInlinable("decorated")
     prefix = f"_{h.name.strip('_')}{next(_counter)}_"
     names = _assigned_names(h)
-    mapping = {n: prefix + n for n in names}
+    stmts, subst = _split_params(h, call, prefix)
+    mapping = {n: prefix + n for n in names if n not in subst}
     body = _clone(h.body)
     # drop the docstring
     if body and isinstance(body[0], ast.Expr) and isinstance(body[0].value, ast.Constant) and isinstance(body[0].value.value, str):
         body = body[1:]
+    body = [_Subst(subst).visit(s) for s in body]
     body = [_Rename(mapping).visit(s) for s in body]
-    stmts = _bind_params(h, call, prefix)
     init = ast.copy_location(ast.Assign(targets=[ast.Name(id=res, ctx=ast.Store())], value=ast.Constant(value=None)), call)
     return stmts + [init] + _elim_returns(body, res)
 
@@ -196,10 +223,12 @@ def _generator_body(mod, g, call, target, loop_body, caller):
     if any(isinstance(n, (ast.FunctionDef, ast.ClassDef, ast.Lambda)) for n in ast.walk(g) if n is not g) or g.decorator_list:
         raise NotInlinable("nested definitions")
     prefix = f"_{g.name.strip('_')}{next(_counter)}_"
-    mapping = {n: prefix + n for n in _assigned_names(g)}
+    gassigns, gsubst = _split_params(g, call, prefix)
+    mapping = {n: prefix + n for n in _assigned_names(g) if n not in gsubst}
     body = _clone(g.body)
     if body and isinstance(body[0], ast.Expr) and isinstance(body[0].value, ast.Constant) and isinstance(body[0].value.value, str):
         body = body[1:]
+    body = [_Subst(gsubst).visit(s) for s in body]
     body = [_Rename(mapping).visit(s) for s in body]
     done = prefix + "done"
 
@@ -226,7 +255,7 @@ def _generator_body(mod, g, call, target, loop_body, caller):
     # a bare 'return' in a generator ends the iteration: fold like early returns
     new = _elim_returns(new, done)
     init = ast.copy_location(ast.Assign(targets=[ast.Name(id=done, ctx=ast.Store())], value=ast.Constant(value=None)), call)
-    return _bind_params(g, call, prefix) + [init] + new
+    return gassigns + [init] + new
 
 
 def _is_new_helper(mod, qual):
